@@ -893,6 +893,8 @@ class Gen:
             else:
                 body.append(st)
             prog.features.add("link-" + prog.link_pos)
+        if depth > 0 and rng.random() < 0.3:
+            body.insert(0, Stmt(".once", "once"))     # harmless for a file that is included once
         if depth == 0 and rng.random() < self.p["end"]:
             body.append(Stmt(".end", "end"))
             body.append(Stmt("this is junk after the end ,,,", "junk"))
